@@ -135,6 +135,16 @@ CHECKS = {
              "as actions of RegionTrace over a POOL of regions whose results feed later operations; after every call all pool members are "
              "re-projected (operands unchanged).",
         ref="DESIGN.md 5/C17", technique="TLA+ case enumeration (TLC) + trace validation of operation sequences over a region pool", note=REGION_NOTE),
+    "C18": dict(
+        text="Files.tla is a file-system state machine (names -> format, header parameters, sample ids): TLC explores every history of saves "
+             "(wav/raw, exists_ok) and loads (skip/max_read on a half-sample grid) of the bound and checks load o save = identity, "
+             "load(skip,max_read) = the slice, exists_ok=False never changes an existing file; exported histories are executed with real files; "
+             "seeded histories (7 sample formats, placeholder templates, str/Path names, eager/lazy, decimal skip/max_read, numpy export decoded by "
+             "TLC with Energy!Window) are judged by TLC on FilesTrace.",
+        ref="DESIGN.md 5/C18", technique="TLA+ model checking (TLC) + history replay with real files + trace validation",
+        note="Trusted: TLC/SANY, CommunityModules, CPython, wave, numpy, the local file system; file contents are read back byte-for-byte and projected "
+             "to sample ids; expected file names are rendered by the harness from the region's attributes; skip/max_read at least 1/20 sample from a "
+             "rounding switch point."),
     "C19": dict(
         text="Same Reader spec: invariants C19 (recorded data = consumed prefix, each sample once, never beyond max_read) and C19Replay "
              "(blocks after a rewind replay those before it); data before the first rewind and data/rewind on non-recording readers "
